@@ -1,3 +1,207 @@
+/-
+  C20 — malformed input is rejected, never silently resolved.
+
+  Models: `parseAnno` (dialects.py), `readCG`/`stepNode`/`applyRings` (read_cgsmiles.py),
+  `disconnected` (resolve.py).  In the models an exception is a value of `Except`; "no graph is
+  returned" is `… = .error _`.
+-/
+import CGV.Lemmas.Anno
+import CGV.Lemmas.Fold
 import CGV.Model.ReadCG
+import CGV.Props.C11
 namespace CGV.C20
+open CGV Gen
+
+/-! ### annotation faults -/
+
+theorem classifyEntry_cases (entry : Str) :
+    classifyEntry entry = .error .syntax ∨ ∃ r, classifyEntry entry = .ok r := by
+  unfold classifyEntry
+  split
+  · exact Or.inl rfl
+  · split <;> first | exact Or.inr ⟨_, rfl⟩ | exact Or.inl rfl
+
+/-- an entry with two (or more) `=` makes the whole annotation a SyntaxError — whichever entry it is
+    and whatever the other entries are -/
+theorem C20_two_equals (sig : DialectSig) (s : Str) (bad : Str) (hne : s ≠ [])
+    (hbad : bad ∈ splitOn annotationSep s) (hcount : bad.count annotationAssign > 1) :
+    parseAnno sig s = .error .syntax := by
+  have hc : collect s = .error .syntax := by
+    unfold collect
+    have : s.isEmpty = false := by cases s <;> simp_all
+    simp only [this, Bool.false_eq_true, if_false]
+    apply foldlM_error_of_mem _ .syntax bad _ _ hbad
+    · intro st
+      simp [classifyEntry, hcount, bind, Except.bind]
+    · intro y _ st
+      rcases classifyEntry_cases y with h | ⟨r, h⟩
+      · exact Or.inl (by simp [h, bind, Except.bind])
+      · obtain ⟨k, v⟩ := r
+        cases k with
+        | none => exact Or.inr ⟨(st.1 ++ [v], st.2), by simp [h, bind, Except.bind, pure, Except.pure]⟩
+        | some k => exact Or.inr ⟨(st.1, pySet st.2 k v), by simp [h, bind, Except.bind, pure, Except.pure]⟩
+  simp [parseAnno, hc, bind, Except.bind]
+
+/-- more positional values than reserved parameters: SyntaxError -/
+theorem C20_surplus_positional (sig : DialectSig) (args : List Str) (kw : List (Str × Str))
+    (h : args.length > sig.params.length) : bindSig sig args kw = .error .syntax := by
+  unfold bindSig; rw [if_pos h]
+
+/-- concretely: a fourth positional entry in a base-graph node, a third in an atom -/
+theorem C20_surplus_base (a b c d : Str) (kw : List (Str × Str)) : bindSig baseDialect [a, b, c, d] kw = .error .syntax :=
+  C20_surplus_positional _ _ _ (by simp [baseDialect])
+theorem C20_surplus_frag (a b c : Str) (kw : List (Str × Str)) : bindSig fragDialect [a, b, c] kw = .error .syntax :=
+  C20_surplus_positional _ _ _ (by simp [fragDialect])
+
+/-- a reserved parameter given positionally and by keyword: SyntaxError -/
+theorem C20_duplicate_argument (name q q' : Str) :
+    bindSig baseDialect [name, q] [(['q'], q')] = .error .syntax := by rfl
+
+/-- a non-numeric value for a numeric reserved key is a TypeError (the values before it being fine) -/
+theorem C20_non_numeric (sig : DialectSig) (pre post : List (AnnoParam × Str)) (p : AnnoParam) (v : Str)
+    (extra : List (Str × Str)) (hp : p.type = .float) (hv : parseFloat v = .ok none)
+    (hpre : ∀ y ∈ pre, ∃ r, castVal y.1 y.2 = .ok r) :
+    finishAnno sig (pre ++ (p, v) :: post) extra = .error .type := by
+  unfold finishAnno
+  have : (pre ++ (p, v) :: post).mapM (fun (x : AnnoParam × Str) => do
+      let c ← castVal x.1 x.2
+      pure (x.1.name, c)) = .error .type := by
+    apply mapM_error_at
+    · intro y hy
+      obtain ⟨r, hr⟩ := hpre y hy
+      exact ⟨(y.1.name, r), by simp [hr, bind, Except.bind, pure, Except.pure]⟩
+    · simp [castVal, hp, hv, bind, Except.bind, throw, throwThe, MonadExceptOf.throw]
+  simp only [bind, Except.bind] at this ⊢
+  rw [this]
+
+/-! ### the error reaches the caller of `read_cgsmiles` -/
+
+/-- whatever exception the loop body raises at some node is what `read_cgsmiles` raises: no handler
+    exists on the path -/
+theorem C20_read_propagates (s : Str) (pre post : List (Char × Str × Str)) (m : Char × Str × Str) (st : RState) (e : PyErr)
+    (hs : (s.any fun c => c == '\n' || c.toNat > 127) = false)
+    (hm : matches' s = pre ++ m :: post) (hpre : pre.foldlM stepNode {} = .ok st) (hstep : stepNode st m = .error e) :
+    readCG s = .error e := by
+  unfold readCG
+  simp only [hs, Bool.false_eq_true, if_false, hm]
+  rw [foldlM_error_at stepNode pre post m {} st e hpre hstep]
+  rfl
+
+/-! ### ring faults -/
+
+/-- a ring marker that is still open at the end of the string: SyntaxError -/
+theorem C20_dangling (s : Str) (st : RState)
+    (hs : (s.any fun c => c == '\n' || c.toNat > 127) = false)
+    (hrun : (matches' s).foldlM stepNode {} = .ok st) (hopen : st.cycle ≠ []) :
+    readCG s = .error .syntax := by
+  unfold readCG
+  have : st.cycle.isEmpty = false := by cases h : st.cycle <;> simp_all
+  simp [hs, hrun, this, bind, Except.bind, throw, throwThe, MonadExceptOf.throw]
+
+def hasKey (c : List (Nat × Nat × Nat)) (m : Nat) : Bool := c.any (·.1 == m)
+
+theorem lookup_isSome_iff_hasKey (c : List (Nat × Nat × Nat)) (m : Nat) : (c.lookup m).isSome = hasKey c m := by
+  induction c with
+  | nil => rfl
+  | cons x xs ih =>
+    obtain ⟨k, v⟩ := x
+    simp only [List.lookup, hasKey, List.any_cons]
+    by_cases h : m = k
+    · subst h; simp
+    · have h1 : (m == k) = false := by simpa using h
+      have h2 : (k == m) = false := by simpa using fun e : k = m => h e.symm
+      simp only [h1, h2, Bool.false_or]
+      exact ih
+
+theorem hasKey_pyDel (c : List (Nat × Nat × Nat)) (m m' : Nat) : hasKey (pyDel c m) m' = (hasKey c m' && m' != m) := by
+  induction c with
+  | nil => simp [hasKey, pyDel]
+  | cons x xs ih =>
+    obtain ⟨k, v⟩ := x
+    simp only [pyDel, hasKey, List.filter_cons, List.any_cons] at ih ⊢
+    by_cases hk : k = m
+    · subst hk
+      simp only [beq_self_eq_true, Bool.not_true, Bool.false_eq_true, if_false]
+      rw [ih]
+      by_cases h2 : m' = k
+      · subst h2; simp
+      · have : (k == m') = false := by simpa using fun e : k = m' => h2 e.symm
+        simp [this]
+    · have : (k == m) = false := by simpa using hk
+      simp only [this, Bool.not_false, if_true, List.any_cons]
+      rw [ih]
+      by_cases h2 : k = m'
+      · subst h2; simp [hk]
+      · have : (k == m') = false := by simpa using h2
+        simp [this]
+
+theorem hasKey_append (c : List (Nat × Nat × Nat)) (x : Nat × Nat × Nat) (m' : Nat) :
+    hasKey (c ++ [x]) m' = (hasKey c m' || x.1 == m') := by
+  simp [hasKey, List.any_append]
+
+/-- parity law of the ring bookkeeping: after a node's ring markers have been processed, marker `m` is
+    open iff (it was open before) XOR (it occurs an odd number of times on the node) -/
+theorem C20_ring_parity (cur : Nat) :
+    ∀ (occs : List RingOcc) (cycle edges : List (Nat × Nat × Nat)) (m : Nat),
+      hasKey (applyRings cycle cur occs edges).1 m =
+        (hasKey cycle m != decide ((occs.filter (·.1 == m)).length % 2 = 1))
+  | [], cycle, edges, m => by simp [applyRings]
+  | (m0, o) :: rest, cycle, edges, m => by
+    unfold applyRings
+    have hk := lookup_isSome_iff_hasKey cycle m0
+    cases hl : cycle.lookup m0 with
+    | some v =>
+      obtain ⟨node, ord⟩ := v
+      rw [hl] at hk
+      simp only [Option.isSome_some] at hk
+      rw [C20_ring_parity cur rest _ _ m, hasKey_pyDel]
+      by_cases hm : m0 = m
+      · subst hm
+        simp only [List.filter_cons, beq_self_eq_true, if_true, List.length_cons, ← hk, bne_self_eq_false, Bool.and_false]
+        cases hpar : decide ((rest.filter (·.1 == m0)).length % 2 = 1) <;> simp_all <;> omega
+      · have h1 : (m0 == m) = false := by simpa using hm
+        have h2 : (m != m0) = true := by simpa using fun e : m = m0 => hm e.symm
+        simp [List.filter_cons, h1, h2]
+    | none =>
+      rw [hl] at hk
+      simp only [Option.isSome_none] at hk
+      rw [C20_ring_parity cur rest _ _ m, hasKey_append]
+      by_cases hm : m0 = m
+      · subst hm
+        simp only [List.filter_cons, beq_self_eq_true, if_true, List.length_cons, ← hk, Bool.or_true]
+        cases hpar : decide ((rest.filter (·.1 == m0)).length % 2 = 1) <;> simp_all <;> omega
+      · have h1 : (m0 == m) = false := by simpa using hm
+        simp [List.filter_cons, h1]
+
+/-- a ring bond that would duplicate an existing edge (between already adjacent nodes, or the same
+    ring bond written twice) makes the node's step raise SyntaxError -/
+theorem C20_duplicate_ring_edge (g : CGGraph) (pre post : List (Nat × Nat × Nat)) (e : Nat × Nat × Nat) (g' : CGGraph)
+    (hpre : pre.foldlM (fun (g : CGGraph) (e : Nat × Nat × Nat) =>
+      if g.hasEdge e.1 e.2.1 then (throw PyErr.syntax : Py CGGraph) else pure (g.addEdge e.1 e.2.1 (some e.2.2))) g = Except.ok g')
+    (hdup : g'.hasEdge e.1 e.2.1 = true) :
+    (pre ++ e :: post).foldlM (fun (g : CGGraph) (e : Nat × Nat × Nat) =>
+      if g.hasEdge e.1 e.2.1 then (throw PyErr.syntax : Py CGGraph) else pure (g.addEdge e.1 e.2.1 (some e.2.2))) g = .error .syntax :=
+  foldlM_error_at _ pre post e g g' .syntax hpre (by simp [hdup, throw, throwThe, MonadExceptOf.throw])
+
+/-! ### missing fragment -/
+
+/-- a non-virtual node (at least one incident edge of order ≥ 1) whose name has no fragment
+    definition makes the resolution step raise SyntaxError, at any position of the base graph -/
+theorem C20_missing_fragment (mg : Meta) (fd : FragDict) (bad : MetaNode) (hb : bad ∈ mg.nodes)
+    (hfrag : fd.lookup bad.fragname = none) (hv : virtualOk mg bad.key = false)
+    (cp : Desc → Desc → Bool) (allAtom : Bool) :
+    phaseA cp allAtom mg fd = .error .syntax := by
+  unfold phaseA
+  rw [C11.C11_nonvirtual_rejected mg fd bad hb hfrag hv]
+  rfl
+
+/-! worked instances: the documented errors, by kernel evaluation of the model -/
+example : readCG "{[#A][#B]1}".toList = .error .syntax := by decide +kernel
+example : readCG "{[#A]1[#B]1}".toList = .error .syntax := by decide +kernel
+example : readCG "{[#A]([#B]1[#C])[#D]}".toList = .error .syntax := by decide +kernel
+example : readCG "{[#A;w=ab=c][#B]}".toList = .error .syntax := by decide +kernel
+example : readCG "{[#A;w=1,c=1,q=a;d][#B]}".toList = .error .syntax := by decide +kernel
+example : readCG "{[#A;w=1x][#B]}".toList = .error .type := by decide +kernel
+example : readCG "{[#A;q=--1][#B]}".toList = .error .type := by decide +kernel
+
 end CGV.C20
